@@ -3,11 +3,13 @@
 _H = ["internal/peer/c18_peers_test.go", "internal/peer/c18_codec_test.go"]
 # what C18 leaves open: the boundary at the expiry instant, and when change callbacks fire
 _VARIANTS = [("closed+callbacks", "c"), ("closed", "n"), ("open+callbacks", "oc"), ("open", "on")]
+# ... and, where publishes may fail, whether the implementation stretches its refresh period while they do
+_BACKOFF = [("closed+backoff", "nb"), ("open+backoff", "onb")]
 
 
-def _walk(name, quick, thorough, budget, tiers=("quick", "thorough")):
+def _walk(name, quick, thorough, budget, tiers=("quick", "thorough"), backoff=False):
     return dict(kind="walk", name=name, module="Peers", pkg="internal/peer", test="TestVerifC18Peers", harness=_H, tiers=tiers,
-                alternatives=[dict(name=n, cfg={"quick": f"MC_Peers_{quick}_{s}.cfg", "thorough": f"MC_Peers_{thorough}_{s}.cfg"}) for n, s in _VARIANTS],
+                alternatives=[dict(name=n, cfg={"quick": f"MC_Peers_{quick}_{s}.cfg", "thorough": f"MC_Peers_{thorough}_{s}.cfg"}) for n, s in _VARIANTS + (_BACKOFF if backoff else [])],
                 budget=budget, maxwalk=200, tlc_timeout=900)
 
 
@@ -19,16 +21,16 @@ PROP = dict(
               "(spec->code transition tour); PeersCodec.tla enumerates address/id strings for the message codec (function-vector replay)",
     design_ref="DESIGN.md §5 C18, §9",
     level_text="TLC explores every order of node start, refresh-ticker firing (gap 3 or 4 ticks of 1 s, covering the code's 3 s + up to 20 % jitter), message delivery in any order with a delay of "
-               "0..D ticks, graceful stop (unregister message, which may overtake or be overtaken by a register), silent crash, restart of a process under a new instance id on the same address, "
-               "and TTL expiry, for 2 nodes (quick) and 2-3 nodes / 3 ids (thorough) with at most 3-6 membership events, and checks on the model: if no start/stop/crash happened for "
+               "0..D ticks, graceful stop (unregister message, which may overtake or be overtaken by a register), silent crash, restart of a process under a new instance id on the same address, transient Publish failures (the call returns an error and nobody receives the message; up to 3 for one node incl. its own looped-back heartbeat, 1-2 for two nodes), "
+               "and TTL expiry, for 2 nodes (quick) and 2-3 nodes / 3 ids (thorough) with at most 3-6 membership events, and checks on the model: if no start/stop/crash/failed publish happened for "
                "PeerEntryTimeout + one refresh interval + the delivery delay then every running node lists exactly the alive publishing nodes (plus the tighter halves: live nodes are learnt within "
                "refresh + delay, dead ones forgotten within timeout + delay; a running node always lists itself; no duplicate address afterwards), an entry reappears only through a register message, "
                "and - thorough, under weak fairness of clock, tickers and deliveries - membership eventually agrees forever and a list that changed by expiry is eventually notified. "
                "Each generated transition of the replayed graphs is executed on real RedisPubsubPeers instances and GetPeers() of every running node, the set of messages the nodes published "
-               "(who, register/unregister, to whom) and the change-callback firings must equal the model's. The codec clause: for all address/id strings over a small alphabet (incl. the separator and "
+               "(who, register/unregister, to whom), the change-callback firings and the set of nodes whose currently requested refresh period (NewTicker and every later Reset) lies outside the model's 3..4 s envelope must equal the model's (empty for the code's fixed period; an implementation that backs off while publishes fail is accepted by the backoff alternatives only if the first successful publish brings the period back). The codec clause: for all address/id strings over a small alphabet (incl. the separator and "
                "action letters) unmarshal(marshal(x)) must return x unchanged whenever address and id are non-empty and comma-free, and unmarshal must not panic on any string.",
     level_note="Exhaustive only within the bounds (replayed: 2 nodes D=1 with jitter, 3 ids/2 addresses D=0, 3 nodes D=0; model-checked only: 2 nodes D=2 jitter, restart D=1 jitter, 3 nodes D=0 with 4 events; <=3-6 membership events; time in 1 s ticks, "
-               "so the refresh interval is the envelope 3..4 s and the bound checked is 10 s + 4 s + D). Assumptions made explicit in the model: no message loss, delivery delay <= D with "
+               "so the refresh interval is the envelope 3..4 s and the bound checked is 10 s + 4 s + D). Assumptions made explicit in the model: no loss of a successfully published message, a bounded number of failed Publish calls (the settle time counts from the last one; for an implementation with backoff, from its first successful publish after them), delivery delay <= D with "
                "refresh + D <= timeout, nothing is delivered to a stopped/crashed process, a restarted process has a new instance id. The refresh ticker's channel is interposed: the goroutine "
                "gets its tick when the model says so and the harness checks that the period the code requested from the clock lies in the model's envelope (if the code's constants leave the envelope "
                "but still refresh in time the check reports cannot-decide, if entries would expire between refreshes it reports a violation). RedisPubsubPeers builds its TTL map on the wall clock "
@@ -37,19 +39,24 @@ PROP = dict(
                "alternatives; VIOLATION only if none fits. Concurrent listen() calls (go-redis runs each callback in its own goroutine; unsynchronised hash/callbacks, C35) and go-redis itself are "
                "not exercised. Codec: an address containing a comma is cut at the first comma by unmarshal (TLC invariant CommaAddressCorrupts documents it) but no address the system can produce "
                "(http://host-or-IP:port) or id (8 hex digits) contains one, so those inputs are left open rather than reported.",
-    assumptions=["clockwork.FakeClock is faithful", "pubsub: no loss, any order, delay <= D ticks with refresh + D <= PeerEntryTimeout",
+    assumptions=["clockwork.FakeClock is faithful", "pubsub: a successful Publish is delivered without loss, in any order, delay <= D ticks with refresh + D <= PeerEntryTimeout; a bounded number of Publish calls fail (error returned, nothing delivered)",
                  "refresh ticker fires 3..4 s after the previous firing", "bounded: 2-3 nodes, <=6 membership events, D<=2",
                  "addresses are http://host:port and ids 8 hex digits (no comma)"],
     stages=[
         _walk("pair", "pair_q", "pair_t", {"quick": 25, "thorough": 100}),
+        _walk("solo", "solo", "solo", {"quick": 8, "thorough": 15}, backoff=True),
         dict(kind="tlc", name="timed", module="Peers", cfg={"quick": "MC_Peers_pair_q_timed.cfg", "thorough": "MC_Peers_pair_mc_timed.cfg"}, workers=8),
         dict(kind="walk", name="codec", module="PeersCodec", pkg="internal/peer", test="TestVerifC18Codec", harness=_H,
              cfg={"quick": "MC_PeersCodec_q.cfg", "thorough": "MC_PeersCodec_t.cfg"}, budget={"quick": 10, "thorough": 60}, dump_workers=1),
+        _walk("pairfail", "pairfail", "pairfail", {"thorough": 60}, tiers=("thorough",), backoff=True),
+        dict(kind="tlc", name="timed-solo", module="Peers", cfg="MC_Peers_solo_timed.cfg", workers=4, tiers=("thorough",)),
+        dict(kind="tlc", name="timed-pairfail", module="Peers", cfg="MC_Peers_pairfail_mc_timed.cfg", workers=8, tiers=("thorough",)),
+        dict(kind="tlc", name="timed-pairfail-backoff", module="Peers", cfg="MC_Peers_pairfail_mc_backoff_timed.cfg", workers=8, tiers=("thorough",)),
         _walk("restart", "restart", "restart", {"thorough": 60}, tiers=("thorough",)),
         _walk("trio", "trio", "trio", {"thorough": 100}, tiers=("thorough",)),
         dict(kind="tlc", name="timed-restart", module="Peers", cfg="MC_Peers_restart_mc_timed.cfg", workers=8, tiers=("thorough",)),
         dict(kind="tlc", name="timed-trio", module="Peers", cfg="MC_Peers_trio_mc_timed.cfg", workers=8, tiers=("thorough",)),
         dict(kind="tlc", name="live-pair", module="Peers", cfg="MC_Peers_pair_mc_live.cfg", workers=8, tiers=("thorough",)),
-        dict(kind="tlc", name="live-trio", module="Peers", cfg="MC_Peers_trio_live.cfg", workers=8, tiers=("thorough",)),
+        dict(kind="tlc", name="live-pairfail", module="Peers", cfg="MC_Peers_pairfail_mc_live.cfg", workers=8, tiers=("thorough",)),
     ],
 )
